@@ -52,6 +52,11 @@ func (a *fnA) addrKey(v ssa.Value) (string, bool) {
 					return "*" + k, true
 				}
 			}
+			// a pointer loaded from somewhere else (slice element, local): its
+			// SSA identity names the object it points to
+			if _, isPtr := x.Type().Underlying().(*types.Pointer); isPtr {
+				return fmt.Sprintf("@%s", x.Name()), true
+			}
 		}
 	}
 	return "", false
